@@ -6,6 +6,6 @@ if ! git diff --quiet; then echo "repo dirty"; exit 2; fi
 if ! patch -p1 --no-backup-if-mismatch -s < /verif/seeded/$id/patch.diff; then echo "PATCH FAILED"; git checkout -- .; exit 2; fi
 cd /verif
 for c in "$@"; do
-  VERIF_SEED=${VERIF_SEED:-777} bin/check $c --no-build 2>&1 | grep -E "^VIOLATION|^KNOWN|^  C[0-9]+/|quick:|thorough:" | cut -c1-300
+  VERIF_EVIDENCE_DIR=/verif/build/mutant_evidence VERIF_SEED=${VERIF_SEED:-777} bin/check $c --no-build 2>&1 | grep -E "^VIOLATION|^KNOWN|^  C[0-9]+/|quick:|thorough:" | cut -c1-300
 done
 git -C /repo checkout -- . ; git -C /repo status --short | head -3
